@@ -207,13 +207,37 @@ def check_constructed_only_in(ob, prog, adt, allowed, crates=None, floor=1):
 # R-PATHSEQ helpers
 
 
-_PROG = None
+import threading
+
+_TLS = threading.local()
+
+
+class _ProgProxy:
+    """per-thread current program (the self-test evaluates several trees concurrently in one process)"""
+    def __bool__(self):
+        return getattr(_TLS, "prog", None) is not None
+
+    def __getattr__(self, k):
+        return getattr(_TLS.prog, k)
 
 
 def set_program(prog):
-    """the program whose closure bodies the combinator models of words_of may look into (set once per run by the engine)"""
-    global _PROG
-    _PROG = prog
+    """the program whose closure bodies the combinator models of words_of may look into (set per run, per thread, by the engine)"""
+    _TLS.prog = prog
+
+
+class _ProgRef:
+    def __eq__(self, other):
+        return other is None and getattr(_TLS, "prog", None) is None
+
+    def __ne__(self, other):
+        return not self.__eq__(other)
+
+    def __getattr__(self, k):
+        return getattr(_TLS.prog, k)
+
+
+_PROG = _ProgRef()
 
 
 _PINNED_SET = None
@@ -408,7 +432,7 @@ def words_of(body, call_sym, edge_sym=None, stmt_sym=None, start=0, stops=(), ke
             if rt == "bool":
                 flags.add(c_.dest)
 
-    if models and _PROG is not None and _depth < 2:
+    if models and getattr(_TLS, 'prog', None) is not None and _depth < 2:
         for i_, bl_ in enumerate(body.blocks):
             if bl_.get("cleanup") or bl_["t"]["k"] != "call" or i_ in inl:
                 continue
